@@ -633,6 +633,14 @@ func (s *sysRun) splitCronEdit() {
 			}
 		}
 		if s.r.Intn(2) == 0 || len(keep) == 0 {
+			if s.r.Intn(2) == 0 {
+				// an entry made a while ago: its first occurrence may sort BEFORE the head the Peek has just seen
+				g.backdate = time.Duration(30+s.r.Intn(7200)) * time.Second
+				if s.r.Intn(2) == 0 {
+					g.backdate = time.Duration(30+s.r.Intn(300)) * time.Second
+				}
+				s.stats["user:cron-edit-between-peek-and-pop:backdated-entry"]++
+			}
 			eid := g.newEntry(-1)
 			added = append(added, eid)
 			keep = append(keep, g.pool[eid])
